@@ -68,8 +68,10 @@ structure Quiet (st st' : St) : Prop where
   off : st'.blocksOffset = st.blocksOffset
   fdt : st'.fdtId = st.fdtId
   state : st'.state = st.state ∨ st'.state ≠ .receiving
+  cacheSize : st'.cacheSize = st.cacheSize
+  maxSize : st'.maxSize = st.maxSize
 
-theorem Quiet.refl (st : St) : Quiet st st := ⟨rfl, rfl, rfl, rfl, rfl, rfl, .inl rfl⟩
+theorem Quiet.refl (st : St) : Quiet st st := ⟨rfl, rfl, rfl, rfl, rfl, rfl, .inl rfl, rfl, rfl⟩
 
 theorem Inv.quiet {st st' : St} (h : Inv st) (q : Quiet st st') : Inv st' := by
   constructor
@@ -393,11 +395,11 @@ theorem inv_writeBlocks (P : Params) (st : St) (sbn : Nat) {st' : St} {b : Bool}
 
 theorem quiet_growBlocks (st : St) (off : Nat) : Quiet st (growBlocks st off) := by
   unfold growBlocks; split
-  · exact ⟨rfl, rfl, rfl, rfl, rfl, rfl, .inl rfl⟩
+  · exact ⟨rfl, rfl, rfl, rfl, rfl, rfl, .inl rfl, rfl, rfl⟩
   · exact Quiet.refl _
 
 theorem quiet_setError (st : St) : Quiet st { st with state := .error } :=
-  ⟨rfl, rfl, rfl, rfl, rfl, rfl, .inr (by simp)⟩
+  ⟨rfl, rfl, rfl, rfl, rfl, rfl, .inr (by simp), rfl, rfl⟩
 
 theorem quiet_allocBlock (P : Params) (st : St) (o : Oti) (tl : Nat) (pid : PayloadId) (blk : Block)
     {st' : St} {r : Option Block} (h : allocBlock P st o tl pid blk = .ok (st', r)) : Quiet st st' := by
@@ -415,11 +417,11 @@ theorem quiet_allocBlock (P : Params) (st : St) (o : Oti) (tl : Nat) (pid : Payl
           · simp at h; rw [← h.1]; exact quiet_setError _
           · split at h
             · simp at h
-            · simp at h; rw [← h.1]; exact ⟨rfl, rfl, rfl, rfl, rfl, rfl, .inl rfl⟩
+            · simp at h; rw [← h.1]; exact ⟨rfl, rfl, rfl, rfl, rfl, rfl, .inl rfl, rfl, rfl⟩
 
 theorem Quiet.trans {a b c : St} (h1 : Quiet a b) (h2 : Quiet b c) : Quiet a c := by
   refine ⟨h2.writer.trans h1.writer, h2.out.trans h1.out, h2.cache.trans h1.cache, h2.bw.trans h1.bw,
-    h2.off.trans h1.off, h2.fdt.trans h1.fdt, ?_⟩
+    h2.off.trans h1.off, h2.fdt.trans h1.fdt, ?_, h2.cacheSize.trans h1.cacheSize, h2.maxSize.trans h1.maxSize⟩
   cases h2.state with
   | inr e => exact .inr e
   | inl e =>
@@ -469,7 +471,7 @@ theorem inv_pushToBlock2 (P : Params) (st : St) (p : Pkt) {st' : St} {b : Bool}
                     split at h
                     · simp at h
                     · have q2 : Quiet st { ‹St› with blocks := (‹St›).blocks.set (‹PayloadId›.sbn - st.blocksOffset) ‹Block› } :=
-                        q1.trans ⟨rfl, rfl, rfl, rfl, rfl, rfl, .inl rfl⟩
+                        q1.trans ⟨rfl, rfl, rfl, rfl, rfl, rfl, .inl rfl, rfl, rfl⟩
                       split at h
                       · have := inv_writeBlocks _ _ _ (hi.quiet q2) h
                         exact ⟨this.1, fun hf => Or.inr (this.2.1 hf)⟩
@@ -564,7 +566,7 @@ theorem inv_initBlocksPartitioning (st : St) {st' : St}
     · split at h
       · simp at h
       · simp at h; subst h
-        exact ⟨hi.quiet ⟨rfl, rfl, rfl, rfl, rfl, rfl, .inl rfl⟩, ⟨rfl, rfl, rfl, rfl, rfl, rfl, .inl rfl⟩⟩
+        exact ⟨hi.quiet ⟨rfl, rfl, rfl, rfl, rfl, rfl, .inl rfl, rfl, rfl⟩, ⟨rfl, rfl, rfl, rfl, rfl, rfl, .inl rfl, rfl, rfl⟩⟩
     · simp at h; rw [← h]; exact ⟨hi, Quiet.refl _⟩
 
 theorem inv_openWriter (pl : Plan) (st : St) (tl : Nat) (cenc : Cenc) {st' : St}
@@ -609,9 +611,9 @@ theorem inv_initObjectWriter (P : Params) (st : St) {st' : St}
         simp [pstateOf_cons, evOf, hw, absW, hps]
       split at h
       · simp at h; subst h
-        exact hi2.quiet ⟨rfl, rfl, rfl, rfl, rfl, rfl, .inr (by simp)⟩
+        exact hi2.quiet ⟨rfl, rfl, rfl, rfl, rfl, rfl, .inr (by simp), rfl, rfl⟩
       · simp at h; subst h
-        exact hi2.quiet ⟨rfl, rfl, rfl, rfl, rfl, rfl, .inr (by simp)⟩
+        exact hi2.quiet ⟨rfl, rfl, rfl, rfl, rfl, rfl, .inr (by simp), rfl, rfl⟩
       · exact inv_openWriter _ _ _ _ hi2 hw (by simp [hfid]) h
     · simp at h; rw [← h]; exact hi
 
@@ -620,14 +622,14 @@ theorem inv_initObjectWriter (P : Params) (st : St) {st' : St}
 theorem quiet_setCencFromPkt (st : St) (p : Pkt) : Quiet st (setCencFromPkt st p) := by
   unfold setCencFromPkt; split
   · exact Quiet.refl _
-  · exact ⟨rfl, rfl, rfl, rfl, rfl, rfl, .inl rfl⟩
+  · exact ⟨rfl, rfl, rfl, rfl, rfl, rfl, .inl rfl, rfl, rfl⟩
 
 theorem quiet_setOtiFromPkt (st : St) (p : Pkt) : Quiet st (setOtiFromPkt st p) := by
   unfold setOtiFromPkt; split
   · exact Quiet.refl _
   · split
     · exact Quiet.refl _
-    · exact ⟨rfl, rfl, rfl, rfl, rfl, rfl, .inl rfl⟩
+    · exact ⟨rfl, rfl, rfl, rfl, rfl, rfl, .inl rfl, rfl, rfl⟩
 
 theorem inv_cachePkt (st : St) (p : Pkt) (hi : Inv st) (hl : Live st) :
     Inv (cachePkt st p).1 ∧ Live (cachePkt st p).1 := by
